@@ -163,14 +163,25 @@ type State struct {
 }
 
 type havocMark struct {
-	prefix string
-	gen    int
+	prefix   string
+	gen      int
+	frame    bool // objects that existed before (below allocPre) are unchanged; newer ones arbitrary
+	allocPre Term
+}
+
+// markFrame: a callee may have initialised objects of these classes that it allocated.
+func (e *Exec) markFrame(st *State, allocPre Term, prefixes ...string) {
+	e.ctx.n++
+	for _, p := range prefixes {
+		st.havocPref = append(st.havocPref, havocMark{prefix: p, gen: e.ctx.n, frame: true, allocPre: allocPre})
+	}
+	e.ctx.genAlloc[e.ctx.n] = st.alloc
 }
 
 func (e *Exec) markHavoc(st *State, prefixes ...string) {
 	e.ctx.n++
 	for _, p := range prefixes {
-		st.havocPref = append(st.havocPref, havocMark{p, e.ctx.n})
+		st.havocPref = append(st.havocPref, havocMark{prefix: p, gen: e.ctx.n})
 	}
 	e.ctx.genAlloc[e.ctx.n] = st.alloc
 }
@@ -375,14 +386,28 @@ func (e *Exec) heapGet(st *State, name string, s Sort) Term {
 	if t, ok := st.heap[name]; ok {
 		return t
 	}
-	for i := len(st.havocPref) - 1; i >= 0; i-- {
-		if strings.HasPrefix(name, st.havocPref[i].prefix) {
+	t := e.heapLazy(st, name, s, len(st.havocPref))
+	st.heap[name] = t
+	return t
+}
+
+// heapLazy: the symbol for a heap location first touched now, given the havoc / frame marks [0, upto).
+func (e *Exec) heapLazy(st *State, name string, s Sort, upto int) Term {
+	for i := upto - 1; i >= 0; i-- {
+		mk := st.havocPref[i]
+		if strings.HasPrefix(name, mk.prefix) || (mk.frame && strings.HasPrefix(mk.prefix, name)) {
 			// deterministic name: clones of this state agree on the symbol
-			t := e.ctx.constSym(fmt.Sprintf("%s@h%d", name, st.havocPref[i].gen), s)
+			t := e.ctx.constSym(fmt.Sprintf("%s@h%d", name, mk.gen), s)
 			e.ctx.heapSort[name] = s
-			st.heap[name] = t
-			if al, ok := e.ctx.genAlloc[st.havocPref[i].gen]; ok {
+			if al, ok := e.ctx.genAlloc[mk.gen]; ok {
 				e.ctx.closed(name, t, al)
+			}
+			if mk.frame && strings.HasPrefix(string(s), "(Array Int ") {
+				prev := e.heapLazy(st, name, s, i)
+				return e.ctx.def("framed", Mix(prev, t, mk.allocPre))
+			}
+			if mk.frame {
+				continue // scalars (globals) are not framed
 			}
 			return t
 		}
@@ -394,7 +419,6 @@ func (e *Exec) heapGet(st *State, name string, s Sort) Term {
 		e.ctx.heapSort[name] = s
 		e.ctx.closed(name, t, Term{sym("alloc@0"), SInt})
 	}
-	st.heap[name] = t
 	return t
 }
 
